@@ -34,19 +34,22 @@ def step (_ : Unit) (line : String) : Unit × String :=
         let mout := if assignor == "range" && kSortTies act then "*" else showPlan (act.map (·.id)) model
         let ip := parsePlan impl
         let ok := validPlan (kSubsOf ms0) (cnt snap) ip && showPlan (act.map (·.id)) ip == impl
+        -- conflicting prior targets keep their own stable key (defect repaired in /repo 31831e3)
         let key := if kind == "krange" then "kfake-range"
                    else if disjointPriors ms0 snap then "kfake-uniform" else "kfake-uniform-conflicting-priors"
         let nt := act.length ≥ 2 && ((kAllTPs act snap).length ≥ 2)
         s!"{mout} | {verdict ok key} | {boolStr nt}"
       else
-        let ms := dedupMembers (parseMembers m)
+        -- NewConsumerBalancer: member ids deduplicated, each subscription sorted and compacted (67aaac1)
+        let raw := dedupMembers (parseMembers m)
+        let ms := raw.map fun x => { x with topics := dedup x.topics }
         let (topics, racks) := parseTopics t
         let ids := ms.map (·.id)
         let nt := boolStr (ms.length ≥ 2 && totalParts ms topics ≥ 2)
         let n := cnt topics
         -- a member whose subscription lists one topic twice (malformed metadata): failures of the sticky
-        -- engine on such input get their own stable key
-        let dupSub := ms.any fun m => (dedup m.topics).length != m.topics.length
+        -- engine on such input keep their own stable key (defect repaired in /repo 67aaac1)
+        let dupSub := raw.any fun m => (dedup m.topics).length != m.topics.length
         if kind == "range" then
           let mout := if sortTies ms then "*" else showPlan ids (balanceRange ms topics racks)
           let ip := parsePlan impl
